@@ -24,6 +24,9 @@ CHECKS = {
  "C03": dict(design="3/C03", technique="property-based testing (Hypothesis) of residual invariants computed from the returned density with an independent NumPy Fock build; iteration-cap fault injection for the 'never silently converged' clause; deterministic loop-iteration monitor (sys.settrace) for termination",
              text="Generated molecules and zero-padded batches (neutrals, ions, UHF radicals; MNDO/AM1/PM3) x solver lattice (fixed mixing alpha 0..0.9, adaptive, Pulay, SP2 1e-3..1e-7) x eps 1e-4..1e-11 x five kinds of starting density x iteration caps 1..1000. For every row flagged converged the harness recomputes symmetry, trace, charge sum, idempotency, commutator with the independently rebuilt Fock operator, distance to the aufbau projector of that operator and the energy functional, against bounds derived from the code's own stopping criterion and calibrated on the unchanged tree (margins 3-12x, reported per run). A monitor hit (SP2 loop > 2000 passes) is a termination violation. Exploration.",
              note="Residuals rest on pv/refnddo.py (floor 2e-5 eV); only MNDO/AM1/PM3 rows of <= 20 orbitals; KSA solver not generated. 'Bounded time' is decided by loop-iteration counts on the explored inputs. SP2 non-termination for batches containing an anion is a recorded known finding."),
+ "C05": dict(design="3/C05", technique="differential property-based testing (Hypothesis): every row of a generated batch vs the same molecule alone; same-element transposition as a metamorphic relation; short MD trajectories alone vs batched",
+             text="Generated batches of 2-4 molecules of different size, composition and charge (RHF or UHF), random order, extra padding width 0-3, padding coordinates zero / random / 1e6 / coincident with a real atom, 4 methods, fixed / adaptive / Pulay / SP2, three force evaluators, optional CIS: Etot, Hf, forces, charges, orbital energies, dipole and CIS energies of each row must equal the single-molecule result (1e-9 for fixed/adaptive mixing; measured 1e-10). Transposing two atoms of the same element must permute per-atom outputs exactly. 5-8 step BOMD and XL-BOMD trajectories with explicit velocities must agree alone vs batched (measured 2e-13). Exploration.",
+             note="Langevin and surface hopping are not compared path-wise (one noise stream over the whole batch tensor). Two recorded known findings: Pulay's batch-global DIIS restart (another SCF solution), heterogeneous CIS replacing a non-positive root by a padding zero."),
 }
 NOT_APPLICABLE = []
 def main():
